@@ -24,6 +24,24 @@ ASSUMPTIONS = ['contents that are not exactly representable in the dtype are ski
 REQUIRED = ['roundtrip_checks', 'comm_equalities', 'reject_checks']
 
 
+def same(a, b):
+    """exact equality that also holds for matrices with NaN entries (NaN must come back as NaN)."""
+    import torch
+    return a.shape == b.shape and a.dtype == b.dtype and bool(((a == b) | (torch.isnan(a) & torch.isnan(b))).all())
+
+
+def extreme(n, dt, seed):
+    """symmetric matrix whose entries come from the edges of the dtype: largest finite, above half of it, infinities, denormals, signed zero, NaN."""
+    import torch
+    fi = torch.finfo(dt)
+    pal = torch.tensor([fi.max, -fi.max, 0.75 * fi.max, -0.6 * fi.max, float('inf'), -float('inf'), fi.tiny, fi.tiny / 4, -0.0, 1.0, float('nan'), 3.0],
+                       dtype=torch.float64).to(dt)
+    g = torch.Generator().manual_seed(seed)
+    k = torch.randint(0, len(pal), (n, n), generator=g)
+    k = torch.triu(k) + torch.triu(k, 1).t()
+    return pal[k]
+
+
 def roundtrip(n, res):
     import torch
     from kfac.distributed import fill_triu, get_triu
@@ -39,13 +57,16 @@ def roundtrip(n, res):
         contents['random'] = (r + r.t())
         idx = (torch.minimum(i[:, None], i[None, :]) * n + torch.maximum(i[:, None], i[None, :])).double()
         contents['index'] = idx
+        contents['extreme'] = extreme(n, dt, n)
         for cname, M in contents.items():
             x = M.to(dt)
-            if cname != 'random' and not torch.equal(x.double(), M):
+            if cname == 'extreme':
+                pass
+            elif cname != 'random' and not torch.equal(x.double(), M):
                 res.skip('content not representable in dtype')
                 continue
             x = (x + x.t()) / 2 if cname == 'random' else x  # exactly symmetric in dt
-            if not torch.equal(x, x.t()):
+            if not same(x, x.t()):
                 res.skip('could not build an exactly symmetric matrix')
                 continue
             big = torch.zeros(2 * n, 2 * n, dtype=dt)
@@ -58,12 +79,12 @@ def roundtrip(n, res):
                 if t.numel() != n * (n + 1) // 2 or t.dim() != 1:
                     return res.violation(f'packed upper triangle has {t.numel()} elements (dim {t.dim()}), expected {n * (n + 1) // 2}', case)
                 y = fill_triu(v.shape, t)
-                if y.dtype != v.dtype or y.shape != v.shape or not torch.equal(y, v):
-                    bad = (y != v).nonzero()[:3].tolist() if y.shape == v.shape else 'shape'
+                if y.dtype != v.dtype or y.shape != v.shape or not same(y, v):
+                    bad = (~((y == v) | (torch.isnan(y) & torch.isnan(v)))).nonzero()[:3].tolist() if y.shape == v.shape else 'shape'
                     return res.violation(f'fill_triu(shape, get_triu(x)) != x at {bad}', case)
                 if n >= 2:
                     res.nontrivial.add(stable_hash(n, str(dt), cname, lname))
-    res.sample(dict(n=n, contents=['min', 'max', 'random', 'index'], layouts=['contiguous', 'transposed', 'strided']))
+    res.sample(dict(n=n, contents=['min', 'max', 'random', 'index', 'extreme'], layouts=['contiguous', 'transposed', 'strided']))
 
 
 def comm_case(rng, res, idx):
@@ -82,7 +103,11 @@ def comm_case(rng, res, idx):
     sub = sorted(rng.sample(range(W), 2)) if use_sub else list(range(W))
     bad_shapes = [rng.choice([(2, 3), (3, 2), (1, 4), (4,), (2, 2, 2), (5, 1)]) for _ in range(2)]
     seeds = [[rng.randrange(2 ** 31) for _ in range(nt)] for _ in range(W)]
-    case = dict(idx=idx, W=W, n=n, dtype=str(dt), cap=cap, tensors=nt, src=src, group=sub, bad_shapes=bad_shapes)
+    ext_seed = rng.randrange(2 ** 31) if rng.random() < 0.4 else None   # the broadcast matrix sits at the edges of the dtype
+    case = dict(idx=idx, W=W, n=n, dtype=str(dt), cap=cap, tensors=nt, src=src, group=sub, bad_shapes=bad_shapes, ext_seed=ext_seed)
+
+    def bmat(rank):
+        return extreme(n, dt, ext_seed) if ext_seed is not None else mats(rank)[0]
 
     def mats(rank):
         out = []
@@ -130,8 +155,9 @@ def comm_case(rng, res, idx):
             res_[avg] = [[f.wait() if not isinstance(f, torch.Tensor) else f for f in fs] for fs in (sym, den, bsym, bden)]
         out['allreduce'] = res_
         root = sub[src % len(sub)]
-        bs = tdc.broadcast(ms[0].clone() if rank == root else torch.empty_like(ms[0]), src=root, symmetric=True, group=grp)
-        bd = tdc.broadcast(ms[0].clone() if rank == root else torch.empty_like(ms[0]), src=root, symmetric=False, group=grp)
+        b0 = bmat(rank)
+        bs = tdc.broadcast(b0.clone() if rank == root else torch.zeros_like(b0), src=root, symmetric=True, group=grp)
+        bd = tdc.broadcast(b0.clone() if rank == root else torch.zeros_like(b0), src=root, symmetric=False, group=grp)
         out['broadcast'] = (bs.wait(), bd.wait(), root)
         return out
 
@@ -160,9 +186,11 @@ def comm_case(rng, res, idx):
                 if not torch.allclose(den[j].double(), e, rtol=4 * float(torch.finfo(dt).eps), atol=0):
                     return res.violation(f'dense allreduce (average={avg}) is not the group sum on rank {rank}', case)
         bs, bd, root = o['broadcast']
-        want = mats(root)[0]
+        want = bmat(root)
         res.count('comm_equalities', 2)
-        if not torch.equal(bs, want) or not torch.equal(bd, want) or bs.shape != want.shape:
+        if ext_seed is not None:
+            res.count('extreme_broadcasts')
+        if not same(bs, want) or not same(bd, want):
             return res.violation(f'symmetric/dense broadcast from {root} did not deliver the root matrix on rank {rank}', case)
     res.count('sim_worlds')
     res.count('sim_events', len(run.trace))
